@@ -137,6 +137,19 @@ func c01FxExec(c *mon.Case) {
 		vars.Add(av)
 		vars.Add(&fxCounterVar{w: w})
 		fc := functions.NewDefaultFunctionCollection()
+		// every function keeps the parameter list it was handed (the list is the function's from then on) with what it held
+		type keptList struct {
+			p    []*variants.Variant
+			held string
+		}
+		var kept []keptList
+		keep := func(p []*variants.Variant) {
+			var b strings.Builder
+			for _, x := range p {
+				b.WriteString(snap(x).String() + " ")
+			}
+			kept = append(kept, keptList{p, b.String()})
+		}
 		intArg := func(p []*variants.Variant, i int) int { return p[i].AsInteger() }
 		fc.Add(functions.NewDelegatedFunction("Bump", func(p []*variants.Variant, ops variants.IVariantOperations) (*variants.Variant, error) {
 			w.a = av.Value().AsInteger() + 1
@@ -144,6 +157,7 @@ func c01FxExec(c *mon.Case) {
 			return variants.VariantFromInteger(w.a), nil
 		}))
 		fc.Add(functions.NewDelegatedFunction("Put", func(p []*variants.Variant, ops variants.IVariantOperations) (*variants.Variant, error) {
+			keep(p)
 			w.a = intArg(p, 0)
 			av.SetValue(variants.VariantFromInteger(w.a))
 			return variants.VariantFromInteger(1), nil
@@ -153,6 +167,7 @@ func c01FxExec(c *mon.Case) {
 			return variants.VariantFromInteger(w.ticks * 7), nil
 		}))
 		fc.Add(functions.NewDelegatedFunction("Pair", func(p []*variants.Variant, ops variants.IVariantOperations) (*variants.Variant, error) {
+			keep(p)
 			return variants.VariantFromInteger(intArg(p, 0)*3 - intArg(p, 1)), nil
 		}))
 		var setErr, evErr error
@@ -172,6 +187,16 @@ func c01FxExec(c *mon.Case) {
 		if evErr != nil || res == nil {
 			c.Failf("evaluation with time-dependent leaves fails", "style=%s source=%q: result=%v error=%v", printStyles[i], src, res, evErr)
 			return
+		}
+		for _, k := range kept {
+			var b strings.Builder
+			for _, x := range k.p {
+				b.WriteString(snap(x).String() + " ")
+			}
+			if b.String() != k.held {
+				c.Failf("a parameter list handed to a function is rewritten later in the evaluation", "style=%s source=%q: a function received the arguments [%s]; after the evaluation the list it was handed holds [%s]", printStyles[i], src, k.held, b.String())
+				return
+			}
 		}
 		if res.Type() != variants.Integer || res.AsInteger() != want || w.a != ref.a || w.reads != ref.reads || w.ticks != ref.ticks {
 			c.Failf("leaves are not read, or functions not called, in written order", "style=%s source=%q (a starts at 5; Bump() adds 1 to a and returns it; Put(k) sets a and returns 1; n counts its reads x100; Tick() counts its calls x7; Pair(x,y)=3x-y)\nwritten-order value %d with a=%d, %d reads of n, %d ticks\ncalculator: %s with a=%d, %d reads of n, %d ticks",
@@ -193,7 +218,7 @@ func c01FxExec(c *mon.Case) {
 func c01FxSub(cfg *mon.Config) *mon.Sub {
 	return &mon.Sub{
 		Name:  "time-dependent-leaves-in-written-order",
-		Rule:  "seeded trees over + - * unary minus and calls whose leaves depend on when they are read: variable a (starts at 5) is replaced by the functions Bump() (a+1, returns it) and Put(k) (sets a, returns 1) through SetValue with a fresh variant; variable n is an IVariable that counts its own reads; Tick() counts its calls; Pair(x,y)=3x-y.  Each tree is printed four ways and evaluated with these variables and functions; the result, the final a and the numbers of reads and calls must equal a walk of the tree in written order (left operand, right operand, node; arguments left to right).  non-trivial = a is read at least twice and written at least once in the tree",
+		Rule:  "seeded trees over + - * unary minus and calls whose leaves depend on when they are read: variable a (starts at 5) is replaced by the functions Bump() (a+1, returns it) and Put(k) (sets a, returns 1) through SetValue with a fresh variant; variable n is an IVariable that counts its own reads; Tick() counts its calls; Pair(x,y)=3x-y.  Each tree is printed four ways and evaluated with these variables and functions; the result, the final a and the numbers of reads and calls must equal a walk of the tree in written order (left operand, right operand, node; arguments left to right), and every parameter list a function was handed must still hold its arguments when the evaluation is over.  non-trivial = a is read at least twice and written at least once in the tree",
 		Floor: 300,
 		Gen: func(emit func(string)) {
 			r := cfg.Rng("c01-fx")
